@@ -285,6 +285,57 @@ Proof.
 Qed.
 End Props.
 
+
+(* ---- the two helpers behind `strip_parens` and `supports_callee` (regenerated, frames matched literally) ---- *)
+Section Callee.
+Variable N : Type.
+Variable cls_of : N -> cls.
+Variables attr_value attr_name : N -> option N.
+Variable is_select : N -> bool.
+Local Notation strip := (strip_parentheses N cls_of attr_value).
+Local Notation supports := (supports_attrset_argument N cls_of attr_value attr_name is_select).
+Lemma is_cls_iff n c : is_cls N cls_of n c = true <-> cls_of n = c.
+Proof. unfold is_cls. destruct (cls_of n), c; cbn; split; congruence. Qed.
+(* what _strip_parentheses returns is not a parenthesis; on a non-parenthesis it is the identity; it is idempotent *)
+Theorem strip_not_paren fuel : forall e r, strip fuel e = RVal r -> cls_of r <> CParen.
+Proof.
+  induction fuel as [|f IH]; intros e r H; cbn [strip_parentheses] in H; [discriminate|].
+  destruct (is_cls N cls_of e CParen) eqn:E.
+  - destruct (attr_value e); [apply (IH _ _ H)|discriminate].
+  - inversion H; subst. intros Hc. apply is_cls_iff in Hc. congruence.
+Qed.
+Theorem strip_fixed f e : cls_of e <> CParen -> strip (S f) e = RVal e.
+Proof. intros H. cbn [strip_parentheses]. destruct (is_cls N cls_of e CParen) eqn:E; [apply is_cls_iff in E; contradiction|reflexivity]. Qed.
+Theorem strip_idempotent fuel e r f : strip fuel e = RVal r -> strip (S f) r = RVal r.
+Proof. intros H. apply strip_fixed. exact (strip_not_paren fuel e r H). Qed.
+(* _supports_attrset_argument: a name given as a string is accepted; a curried call is judged by its function; the head decides:
+   lambda, identifier, select -> accepted; anything else (a literal, a list, a set …) -> refused *)
+Theorem supports_str f : supports (S f) None = RVal true.
+Proof. reflexivity. Qed.
+Theorem supports_curried f c : cls_of c = CCall -> supports (S (S f)) (Some c) = supports (S f) (attr_name c).
+Proof.
+  intros H. cbn [supports_attrset_argument]. rewrite strip_fixed by congruence.
+  destruct (is_cls N cls_of c CCall) eqn:E; [reflexivity|]. exfalso. apply is_cls_iff in H. congruence.
+Qed.
+Theorem supports_head f c : cls_of c <> CParen -> cls_of c <> CCall ->
+  supports (S (S f)) (Some c) = RVal (is_cls N cls_of c CFunDef || is_cls N cls_of c CIdent || is_select c).
+Proof.
+  intros H1 H2. cbn [supports_attrset_argument]. rewrite strip_fixed by exact H1.
+  destruct (is_cls N cls_of c CCall) eqn:E; [apply is_cls_iff in E; contradiction|reflexivity].
+Qed.
+Theorem supports_through_paren f c v : cls_of c = CParen -> attr_value c = Some v ->
+  supports (S (S (S f))) (Some c) = match strip (S f) v with
+                                    | RVal c1 => if is_cls N cls_of c1 CCall then supports (S (S f)) (attr_name c1)
+                                                 else RVal (is_cls N cls_of c1 CFunDef || is_cls N cls_of c1 CIdent || is_select c1)
+                                    | RErrV => RErrV | RErrO => RErrO | RFuel => RFuel end.
+Proof.
+  intros H Hv. cbn [supports_attrset_argument]. change (strip (S (S f)) c) with (if is_cls N cls_of c CParen then match attr_value c with Some v0 => strip (S f) v0 | None => RErrO end else RVal c).
+  apply is_cls_iff in H. rewrite H, Hv. reflexivity.
+Qed.
+Theorem supports_literal_head_refused f c : cls_of c = COther -> is_select c = false -> supports (S (S f)) (Some c) = RVal false.
+Proof. intros H Hs. rewrite supports_head by congruence. unfold is_cls. rewrite H, Hs. reflexivity. Qed.
+End Callee.
+
 (* ---- closed statements over a bundled world (what Props/C04.v, C05.v, C08.v cite) ---- *)
 Record world := {
   wN : Type; w_eqb : wN -> wN -> bool; w_eqb_spec : forall a b, w_eqb a b = true <-> a = b;
@@ -356,7 +407,7 @@ Qed.
 (* ---- table worlds: the instance the correspondence evaluates (nodes, chains and store versions are numbers) ---- *)
 Record table := {
   t_cls : list cls; t_body : list (option nat); t_value : list (option nat); t_output : list (option nat); t_argument : list (option nat);
-  t_strip : list nat; t_supports : list bool;
+  t_strip : list nat; t_supports : list bool; t_name : list (option nat); t_select : list bool;
   t_truthy : list bool;                         (* by chain number *)
   t_scopes : list (nat * nat * res nat);        (* scopes_for_owner: node, store version, chain number or exception *)
   t_values : list (nat * nat * res nat) }.      (* Identifier.value: node, store version, outcome *)
@@ -376,6 +427,16 @@ Definition table_world (tb : table) : world :=
      w_argument := fun n => nth n (t_argument tb) None; w_strip := fun n => nth n (t_strip tb) n; w_supports := fun n => nth n (t_supports tb) false;
      w_scopes := tb_scopes tb; w_set_ctx := fun _ _ v => S v; w_attach := fun _ _ v => S v;
      w_ident_value := tb_value tb; w_ident_no_fuel := tb_value_no_fuel tb; w_scopes_no_fuel := fun n v => no_fuel_ok _ |}.
+(* the recorded `_strip_parentheses` / `_supports_attrset_argument` of every node are what the regenerated helpers compute in the table *)
+Definition tb_helpers_ok (tb : table) : bool :=
+  let n := List.length (t_cls tb) in
+  let cls_ := fun k => nth k (t_cls tb) COther in let val_ := fun k => nth k (t_value tb) None in
+  forallb (fun k =>
+    (match strip_parentheses nat cls_ val_ (S n) k with RVal r => Nat.eqb r (nth k (t_strip tb) k) | _ => false end) &&
+    (if cls_eqb (cls_ k) CCall then
+       match supports_attrset_argument nat cls_ val_ (fun j => nth j (t_name tb) None) (fun j => nth j (t_select tb) false) (S (S (S n))) (nth k (t_name tb) None) with
+       | RVal b => Bool.eqb b (nth k (t_supports tb) false) | _ => false end
+     else true)) (seq 0 n).
 (* what the correspondence compares: the outcome and the number of context mutations of `_resolve_target_set(source)` *)
 Definition table_run (tb : table) (exprs : list nat) : res nat * nat :=
   let '(r, (_, v)) := target_top (table_world tb) (S (S (List.length (t_cls tb)))) exprs ([], 0) in (r, v).
@@ -384,7 +445,7 @@ Definition table_run (tb : table) (exprs : list nat) : res nat * nat :=
 Example target_demo :
   table_run {| t_cls := [CFunDef; CAssertion; CLet; CParen; CSet]; t_body := [None; Some 2; None; None; None]; t_value := [None; None; Some 3; Some 4; None];
                t_output := [Some 1; None; None; None; None]; t_argument := [None; None; None; None; None]; t_strip := [0; 1; 2; 3; 4];
-               t_supports := []; t_truthy := [false]; t_scopes := []; t_values := [] |} [0] = (RVal 4, 0).
+               t_supports := []; t_name := []; t_select := []; t_truthy := [false]; t_scopes := []; t_values := [] |} [0] = (RVal 4, 0).
 Proof. vm_compute. reflexivity. Qed.
 Print Assumptions target_is_a_set.
 Print Assumptions target_total.
@@ -392,3 +453,5 @@ Print Assumptions target_wrappers_transparent.
 Print Assumptions target_top_refuses_other.
 Print Assumptions target_visits_once.
 Print Assumptions target_top_is_a_set.
+Print Assumptions supports_head.
+Print Assumptions strip_not_paren.
